@@ -143,6 +143,18 @@ def g_peep(tier):
         pid = 'peep/2/%s+%s' % (t1, t2)
         if tier == 'quick' and not stable_pick(pid, 100, 100): continue
         yield build(pid, [(t1, f1), (t2, f2)])
+    # flag/accumulator interplay: set A, clobber the flags without touching A, store the same value again, test it
+    va, vb, vc, vd = V('va'), V('vb'), V('vc'), V('vd')
+    firsts = [('k0', lambda: C(0)), ('k5', lambda: C(5)), ('vb', lambda: V('vb'))]
+    clob = [('X5', lambda: A(V('X'), C(5))), ('Y1', lambda: A(V('Y'), C(1))), ('Xinc', lambda: ExprS(Inc('++', False, V('X')))), ('Ydec', lambda: ExprS(Inc('--', False, V('Y')))),
+            ('a1inc', lambda: ExprS(Inc('++', False, Index('arr', C(1))))), ('ifx', lambda: If(B('==', V('X'), C(3)), A(V('Y'), C(1)))), ('winc', lambda: ExprS(Inc('++', False, V('wa')))),
+            ('xarr', lambda: A(V('X'), Index('arr', V('Y')))), ('cmpy', lambda: If(B('<', V('Y'), C(2)), ExprS(Inc('++', False, V('sa')))))]
+    tests = [('if', lambda: If(V('vc'), A(V('vd'), C(1)))), ('ifeq5', lambda: If(B('==', V('vc'), C(5)), A(V('vd'), C(1)), A(V('vd'), C(2)))),
+             ('ifnot', lambda: If(Un('!', V('vc')), A(V('vd'), C(3)))), ('tern', lambda: A(V('vd'), Tern(V('vc'), C(1), C(2)))),
+             ('while', lambda: While(V('vc'), Block([A(V('vc'), C(0)), ExprS(Inc('++', False, V('vd')))])))]
+    for (fn, f), (cn, cl), (tn, te) in itertools.product(firsts, clob, tests):
+        yield mkprog('peep/f/%s+%s+%s' % (fn, cn, tn), [A(V('va'), f()), cl(), A(V('vc'), f()), te()])
+        yield mkprog('peep/f2/%s+%s+%s' % (fn, cn, tn), [A(V('vc'), f()), cl(), te()])
     # sandwiches a;b;a (reload / stale-register patterns need the same operand before and after an invalidating statement)
     for (t1, f1), (t2, f2) in itertools.product(full, full):
         pid = 'peep/s/%s+%s+%s' % (t1, t2, t1)
